@@ -299,6 +299,9 @@ def run_op(b: Built, i: int, op: dict, source: str = 'inline') -> None:
             lf.defining_origin.file_id.value = op['value']
     elif kind == 'set_sul':
         setattr(b.df.storage_unit_label, op['field'], op['value'])
+    elif kind == 'rename_set':
+        # the set an object lives in is given another name after creation (public attribute of the set)
+        b.handles[op['target']].parent.set_name = op['value']
     else:
         raise ValueError(f'unknown op {kind}')
 
